@@ -246,6 +246,9 @@ func (s *Server) serve(c net.Conn, id int) {
 	}
 	sess := s.E.NewSession(id, user)
 	defer sess.Close()
+	if len(hr) >= 4 && binary.LittleEndian.Uint32(hr[:4])&capFoundRows != 0 {
+		sess.FoundRows = true
+	}
 	s.mu.Lock()
 	s.conns[id] = c
 	s.mu.Unlock()
